@@ -24,11 +24,10 @@ TRUSTED = [
     "generator protocol, all()'s short circuit)",
     "pole sets are known by construction (harness multiplies the factors in exact Fractions; the Lean "
     "side recomputes the product with ALV.C11.fromPoles and both are compared on every case)",
-    "general-order Schur-Cohn equivalence (parcorStableSpec <-> all poles inside): the direction "
-    "'all |k|<1 => all poles inside' is proved for every order (schur_cohn_sufficient; for the constructed "
-    "family: unstable_gives_false), the converse for orders 1 and 2; the converse for order >= 3 "
-    "(PENDING defs SchurCohnFull / FromPolesStable) is carried by this tie: Lean spec verdict vs the "
-    "construction on every generated pole set",
+    "Schur-Cohn equivalence (verdict of the specification <-> all poles strictly inside the unit circle) is "
+    "proved for every order over real coefficients / complex poles (Props.C11.schur_cohn, "
+    "stable_eq_construction); the tie additionally compares the Lean verdict with the construction on every "
+    "generated pole set (exact rationals)",
 ]
 ASSUMPTIONS = [
     "leading (delay 0) coefficient of the step-down input is non-zero (ZFilter's constructor guarantees "
@@ -41,14 +40,12 @@ MANIFEST = {
              "step-up rebuilds the filter (whenever leading coefficient = den[0]); ParCorError iff some yielded "
              "k^2 = 1 (all inputs); levinson_durbin as coded = step-up of its reflection coefficients with "
              "error = r0*prod(1-k^2); gain invariance of the specification and of the repaired code, and its "
-             "NEGATION for the code as it stands (defect D3); Schur-Cohn: all |k|<1 => all poles strictly inside "
-             "the unit circle for every order, poles on/outside => verdict False for the constructed family, "
-             "converse for orders 1 and 2 (general converse PENDING, carried by the tie)"),
+             "NEGATION for the code as it stands (defect D3); Schur-Cohn in both directions for every order "
+             "(real coefficients, complex poles): verdict True <-> all poles strictly inside the unit circle"),
     "note": ("Trusted: Lean kernel, axioms propext/Classical.choice/Quot.sound, the Python correspondence harness. "
              "The model is hand written (ZFilter/Poly arithmetic abstracted to a window of Laurent coefficients "
-             "over a field) and validated differentially. The converse Schur-Cohn direction for order >= 3 is not "
-             "proved (no Rouche in Mathlib v4.33): there the evidence is the differential run of the Lean verdict "
-             "against pole sets known by construction."),
+             "over a field) and validated differentially. Nothing of the property is left pending; the parcor_stable "
+             "clause is proved for the specification and the repaired code, and refuted for the code as it stands (D3)."),
     "design_ref": "DESIGN.md section 7, C11; section 8 D3; section 9",
 }
 if hasattr(sys, "set_int_max_str_digits"):
@@ -421,7 +418,7 @@ def compare(c, io, drv):
         if e == "stable" and io["den"] != drv["den"]:
             out.append(("model", "harness product of the factors differs from ALV.C11.fromPoles"))
         if e == "stable" and drv["spec"] != drv["inside"]:
-            out.append(("model", "Lean parcorStableSpec disagrees with the construction (Schur-Cohn tie)"))
+            out.append(("model", "Lean parcorStableSpec disagrees with the construction (contradicts Props.C11.stable_eq_construction)"))
         io["compared"] = "float, verdict" if io["float"] else "exact"
         if io["float"] and (_critical(decl(drv["ks"]["ks"]) + decl(drv["ks_model"]["ks"])) or
                             _float_err(decl(drv["ks"]["ks"]), decl(drv["ks_model"]["ks"])) > MARGIN / 10):
